@@ -98,6 +98,9 @@ def measures():
         a(M('assortativity_bin:flag%d' % fl, 'dir_bin', lambda b, X, e, fl=fl: b.assortativity_bin(X, fl), S))
     a(M('assortativity_wei', 'und_wei', lambda b, X, e: b.assortativity_wei(X, 0), S))
     a(M('pagerank_centrality:d50', 'und_wei', lambda b, X, e: b.pagerank_centrality(X, .5), N))
+    # a per-node prior travels with the nodes: as a 1-D vector and in the documented Nx1 column form
+    a(M('pagerank_centrality:prior', 'und_wei', lambda b, X, e: b.pagerank_centrality(X, .85, falff=e), N, extra='prior'))
+    a(M('pagerank_centrality:prior_column', 'und_wei', lambda b, X, e: np.ravel(b.pagerank_centrality(X, .85, falff=e.reshape(-1, 1))), N, extra='prior'))
     a(M('eigenvector_centrality_und', 'und_wei_conn', lambda b, X, e: b.eigenvector_centrality_und(X), N))
     a(M('eigenvector_centrality_und@bin', 'und_bin_conn', lambda b, X, e: b.eigenvector_centrality_und(X), N))
     a(M('subgraph_centrality', 'und_bin', lambda b, X, e: b.subgraph_centrality(X), N))
@@ -248,7 +251,7 @@ def run(case, bct, REC):
             continue
         # a directed-domain measure on a symmetric matrix from an undirected case: keep, it is in its domain
         X = dom[m['dom']]
-        extra = ci if m['extra'] == 'ci' else None
+        extra = ci if m['extra'] == 'ci' else ((np.arange(n) * 5 % 7 + 1.0) / 7.0 if m['extra'] == 'prior' else None)
         try:
             base = as_tuple(m['fn'](bct, X.copy(), None if extra is None else extra.copy()), m['kinds'])
             berr = None
